@@ -309,3 +309,52 @@ func TestVerifC14KFSeriesTombstoneLostOnReplay(t *testing.T) {
 	st.Sample(k.log)
 	k.bed.Close()
 }
+
+// Two points of one series in a TSM file; DELETE the first by time, then DELETE the second by
+// time. No point of the series is left, but the engine's reconcile step (deleteSeriesRange) keeps
+// every series whose key is still in a TSM file's index, and the TSM index only drops a key when
+// ONE range (or contiguous ranges) covers all of its blocks - two disjoint tombstones that cover
+// both points leave the key in place. The series stays listed by both index types (until the
+// file is compacted and the store restarted), although a single DELETE over both points removes it.
+func TestVerifC14KFSeriesLingersAfterPiecewiseDeletes(t *testing.T) {
+	st := verifkit.For("C14", "TestVerifC14KFSeriesLingersAfterPiecewiseDeletes", "directed: a series with two points in one TSM file is deleted by two disjoint time-range deletes; control: by one delete covering both")
+	defer st.Flush()
+	for _, piecewise := range []bool{true, false} {
+		k := vC14NewKF(t, st, vDualCfg{NShards: 1, LogSize: vC14BigLog, Partitions: 1, CacheSize: 100})
+		pts := []models.Point{vC14Point("m0,a=x", 1), vC14Point("m0,a=x", 10), vC14Point("m0,a=y", 1)}
+		k.log = append(k.log, "write shard=1 m0,a=x@1 m0,a=x@10 m0,a=y@1")
+		if err := k.bed.Write(1, pts); err != nil {
+			t.Fatalf("%s write: %v", verifkit.Sig("write-error"), err)
+		}
+		k.log = append(k.log, "snapshot shard=1")
+		if err := k.bed.Snapshot(1); err != nil {
+			t.Fatalf("%s %v", verifkit.Sig("snapshot-error"), err)
+		}
+		if piecewise {
+			k.drop([]string{"m0"}, "a = 'x' AND time >= 1 AND time <= 1")
+			k.drop([]string{"m0"}, "a = 'x' AND time >= 10 AND time <= 10")
+		} else {
+			k.drop([]string{"m0"}, "a = 'x' AND time >= 1 AND time <= 10")
+		}
+		all := k.bed.shardIDs()
+		var lingering []string
+		for i, kind := range vDualKinds {
+			got := k.must(k.bed.SeriesByExpr(i, all, "m0", nil))
+			if !vC14Has(got, "m0,a=y") {
+				t.Fatalf("%s %s lost m0,a=y: %v\n%s", verifkit.Sig("series-listing-"+kind+"-missing"), kind, got, strings.Join(k.log, "\n"))
+			}
+			if vC14Has(got, "m0,a=x") {
+				lingering = append(lingering, kind)
+			}
+		}
+		if !piecewise && len(lingering) > 0 {
+			t.Fatalf("%s a single DELETE over all points left the series listed on %v\n%s", verifkit.Sig("series-lingers-after-single-range-delete"), lingering, strings.Join(k.log, "\n"))
+		}
+		if piecewise && len(lingering) > 0 {
+			st.KnownReproduced(vC14SigPiecewise, fmt.Sprintf("m0,a=x written at t=1 and t=10, snapshotted, DELETE time 1..1 then DELETE time 10..10: no point is left but the series is still listed on %v; one DELETE over 1..10 removes it", lingering))
+		}
+		st.Case(true, fmt.Sprintf("piecewise/%v/%v", piecewise, lingering), fmt.Sprintf("kf:piecewise=%v reproduced=%v", piecewise, len(lingering) > 0))
+		st.Sample(k.log)
+		k.bed.Close()
+	}
+}
